@@ -78,6 +78,22 @@ def notification(rng, outcome, shape, mode):
 SHAPES = ["2.0-noid", "2.0-null", "2.0-empty", "1.0-null", "1.0-empty"]
 
 
+def routed_dispatcher_class():
+    """A user subclass of the dispatcher overriding the documented extension point _dispatch (here a pass-through that
+    keeps count): whatever the dispatcher executes - also on the notification pool - goes through the override."""
+    from jsonrpclib.SimpleJSONRPCServer import SimpleJSONRPCDispatcher
+
+    class Routed(SimpleJSONRPCDispatcher):
+        def __init__(self, *args, **kwargs):
+            self.routed = []
+            SimpleJSONRPCDispatcher.__init__(self, *args, **kwargs)
+
+        def _dispatch(self, method, params, config=None):
+            self.routed.append(method)
+            return SimpleJSONRPCDispatcher._dispatch(self, method, params, config)
+    return Routed
+
+
 class PooledFixture(object):
     def __init__(self, cfg, serial):
         import jsonrpclib.threadpool as tp
@@ -86,7 +102,10 @@ class PooledFixture(object):
         if pool is not None:
             self.tp_pool = tp.ThreadPool(pool[0], pool[1], timeout=0.01, logname="vfpoolN%d" % serial)
             self.tp_pool.start()
-        self.fx = dm.Fixture(dm.std_reg(mode), version=v, pool=self.tp_pool)
+        # half of the default-mode fixtures are built on a user subclass that overrides _dispatch
+        self.routed = mode == "default" and serial % 2 == 0
+        self.fx = dm.Fixture(dm.std_reg(mode), version=v, pool=self.tp_pool,
+                             dispatcher_class=routed_dispatcher_class() if self.routed else None)
         self.expected_total = []
 
     def close(self, ctx, cfg):
@@ -108,6 +127,13 @@ class PooledFixture(object):
             time.sleep(0.002)
         got = sorted(dm.inv_repr(fx.log.since(0)))
         ctx.count("monitor:final-accounting")
+        if self.routed:
+            ctx.count("monitor:overridden-_dispatch-accounting")
+            if len(fx.dispatcher.routed) < len(got):
+                ctx.violate("invocations:executed-without-going-through-the-overridden-_dispatch:%s"
+                            % ("pooled" if self.tp_pool else "inline"),
+                            {"config": [cfg[0], cfg[1], list(cfg[2]) if cfg[2] else None], "bclass": "final-accounting"},
+                            {"probe_invocations": len(got), "calls_of_the_override": len(fx.dispatcher.routed)})
         if got != want:
             import collections
             cg, cw = collections.Counter(map(tuple, got)), collections.Counter(map(tuple, want))
